@@ -476,7 +476,7 @@ class System:
         if isinstance(m, tuple):
             arguments, resnorm = m
             log.info(f'residual norm: {resnorm:.1e}')
-            if resnorm > tol > 0:
+            if tol > 0 and not resnorm <= tol: # also raises for nan
                 raise SolverError(f'failed to reach desired tolerance of {tol:.0e}')
         else:
             if tol <= 0:
@@ -486,7 +486,9 @@ class System:
                 log.info(f'residual norm: {resnorm:.1e}')
             resnorm0 = resnorm
             iiter = 0
-            while iiter < miniter or resnorm > tol:
+            while iiter < miniter or not resnorm <= tol:
+                if numpy.isnan(resnorm):
+                    raise SolverError('residual norm is not a number')
                 if maxiter is not None and iiter >= maxiter:
                     raise SolverError(f'failed to converge in {maxiter} iterations')
                 iiter += 1
@@ -1422,7 +1424,9 @@ class _with_solve:
                 it = enumerate(self)
                 iiter, (lhs, info) = next(it)
                 resnorm0 = info.resnorm
-                while info.resnorm > tol or iiter < miniter:
+                while not info.resnorm <= tol or iiter < miniter:
+                    if numpy.isnan(info.resnorm):
+                        raise SolverError('residual norm is not a number')
                     if iiter >= maxiter:
                         raise SolverError(f'failed to reach target tolerance in {maxiter} iterations')
                     recontext(f'{iiter+1} ({100 * numpy.log(resnorm0 / max(info.resnorm, tol)) / numpy.log(resnorm0 / tol):.0f}%)')
